@@ -84,8 +84,9 @@ fn krylov(t: &mut Toks, cx: &mut Ctx, c09: bool) -> String {
         let bn = nrm(&b.vec);
         if bn > 0.0 && nrm(&r0) / bn <= 1e-3 * tol {
             cx.meta("near_exact_guess", 1);
-            cx.check(matches!(&r, Ok(Ok(0))), &format!("an initial guess that already solves the system (relative residual {:e}, tol {:e}) was not accepted as solved: {:?}", nrm(&r0) / bn, tol, r.as_ref().map_err(|c| *c)));
-            cx.check(same_vec(&x.vec, &x0.vec), "an initial guess that already solves the system was modified");
+            // ("accepted as solved and x stays finite": the property does not say after how many iterations, nor that x is left alone)
+            cx.check(matches!(&r, Ok(Ok(_))), &format!("an initial guess that already solves the system (relative residual {:e}, tol {:e}) was not accepted as solved: {:?}", nrm(&r0) / bn, tol, r.as_ref().map_err(|c| *c)));
+            cx.check(x.vec.iter().all(|z| z.is_finite()), "an initial guess that already solves the system: x does not stay finite");
         }
     }
     let class = class.trim_start_matches("near-").to_string();
